@@ -9,6 +9,7 @@ import DeapModel.Lemmas.C16Copy
 import DeapModel.Lemmas.C16Examples
 import DeapModel.Lemmas.C16Namespace
 import DeapModel.Lemmas.C16Gp
+import DeapModel.Lemmas.C16Init
 
 namespace C16
 open Heap
@@ -769,5 +770,112 @@ example : (cloneChain Ex.ct 3 2 Ex.heap 3 (.ref 0)).map (fun r => (r.2.1, r.2.2)
   decide
 
 end Examples
+
+/-! ## `tools.initRepeat`, `tools.initIterate`, `tools.initCycle` (model `Core/Init.lean`) -/
+
+section InitFns
+open Init
+
+/-- `initRepeat(container, func, n)`: `func` is called exactly `n` times, one call after the other (the generator expression is the
+call sequence `func, func, …, func`), and the container receives the `n` results in call order: the `i`-th element is what `func`
+returned on the state its first `i` calls left behind. -/
+theorem initRepeat_calls {σ α γ : Type} (container : List α → γ) (func : Func σ α) (n : Nat) (s : σ) :
+    initRepeat container func n s =
+      ((runCalls (List.replicate n func) s).1, container (runCalls (List.replicate n func) s).2) ∧
+    (repeatCalls func n s).2.length = n ∧
+    (∀ i, i < n → (repeatCalls func n s).2[i]? = some (func (repeatCalls func i s).1).2) := by
+  refine ⟨by simp [initRepeat, repeatCalls_eq], by simp [repeatCalls_eq, runCalls_length], fun i hi => ?_⟩
+  rw [repeatCalls_eq, runCalls_get, repeatCalls_eq]
+  simp [hi, List.take_replicate, Nat.min_eq_left (Nat.le_of_lt hi)]
+
+/-- a counter: every call returns the number of calls made before it -/
+def counter : Func Nat Nat := fun k => (k + 1, k)
+
+example : initRepeat (fun l => l) counter 4 10 = (14, [10, 11, 12, 13]) := by decide
+
+/-- `initCycle(container, seq_func, n)`: `n` passes over the function sequence, every pass calling the functions in their order —
+the calls are `seq_func` repeated `n` times —, `n * len(seq_func)` results in call order. -/
+theorem initCycle_calls {σ α γ : Type} (container : List α → γ) (fs : List (Func σ α)) (n : Nat) (s : σ) :
+    initCycle container fs n s =
+      ((runCalls (List.replicate n fs).flatten s).1, container (runCalls (List.replicate n fs).flatten s).2) ∧
+    (cycleCalls fs n s).2.length = n * fs.length ∧
+    (∀ i : Nat, (cycleCalls fs n s).2[i]? =
+      ((List.replicate n fs).flatten[i]?).map
+        (fun (f : Func σ α) => (f (runCalls ((List.replicate n fs).flatten.take i) s).1).2)) := by
+  refine ⟨by simp [initCycle, cycleCalls_eq], by simp [cycleCalls_eq, runCalls_length], fun i => ?_⟩
+  rw [cycleCalls_eq, runCalls_get]
+
+/-- two functions sharing one counter: the second returns the count times ten -/
+example : initCycle (fun l => l) [counter, fun k => (k + 1, 10 * k)] 3 0 = (6, [0, 10, 2, 30, 4, 50]) := by decide
+
+/-- `initIterate(container, generator)`: the generator is called once and the container receives exactly what it returned. -/
+theorem initIterate_spec {σ α γ : Type} (container : List α → γ) (generator : Func σ (List α)) (s : σ) :
+    initIterate container generator s = ((generator s).1, container (generator s).2) := rfl
+
+example : initIterate List.length (fun k => (k + 1, [k, k, k])) 5 = (6, 3) := by decide
+
+/-- The C16 clause for individuals built by the initialisers: two consecutive `initRepeat(creator.C, func, n)` yield two objects
+whose items are the results of the `n` + `n` calls in call order (the second individual continues where the first one's calls
+stopped) and whose per-instance attributes are freshly constructed — everything `fresh_attrs` says about two `create`s. -/
+theorem initRepeat_fresh_attrs {τ : Type} (ct : ClassTable) (objs : Oid → Option Obj) (next : Nat) (memo : List (Oid × Oid))
+    (hcl : Closed objs next) (c : ClsId) (ci : ClassInfo) (hci : ct[c]? = some ci)
+    (func : Func τ Val) (n : Nat) (t t1 t2 : τ) (st1 st2 : State) (x1 x2 : Oid)
+    (h1 : initRepeatCls ct c func n t ⟨objs, next, memo⟩ = some (t1, st1, x1))
+    (h2 : initRepeatCls ct c func n t1 st1 = some (t2, st2, x2)) :
+    t1 = (runCalls (List.replicate n func) t).1 ∧ t2 = (runCalls (List.replicate (n + n) func) t).1 ∧
+    ∃ o1 o2, st2.objs x1 = some o1 ∧ st2.objs x2 = some o2 ∧
+      o1.items ++ o2.items = (runCalls (List.replicate (n + n) func) t).2 ∧ o1.items.length = n ∧
+      (∀ p ∈ ci.dictInst, (ci.kind = .cfitness → p.1 ≠ cvName) →
+          ∃ y1 y2, lookup p.1 o1.attrs = some (.ref y1) ∧
+          lookup p.1 o2.attrs = some (.ref y2) ∧ next ≤ y1 ∧ y1 < st1.next ∧ st1.next ≤ y2) ∧
+      (∀ k1 v1 k2 v2, lookup k1 o1.attrs = some v1 → lookup k2 o2.attrs = some v2 →
+          ∀ y, Reach st2.objs v1 y → ¬ Reach st2.objs v2 y) := by
+  simp only [initRepeatCls] at h1 h2
+  cases hc1 : create ct ⟨objs, next, memo⟩ c (repeatCalls func n t).2 with
+  | none => rw [hc1] at h1; cases h1
+  | some p1 =>
+    rw [hc1] at h1
+    simp only [Option.map_some, Option.some.injEq, Prod.mk.injEq] at h1
+    obtain ⟨e1, e2, e3⟩ := h1
+    cases hc2 : create ct st1 c (repeatCalls func n t1).2 with
+    | none => rw [hc2] at h2; cases h2
+    | some p2 =>
+      rw [hc2] at h2
+      simp only [Option.map_some, Option.some.injEq, Prod.mk.injEq] at h2
+      obtain ⟨f1, f2, f3⟩ := h2
+      have hc1' : create ct ⟨objs, next, memo⟩ c (repeatCalls func n t).2 = some (st1, x1) := by
+        rw [hc1, ← e2, ← e3]
+      have hc2' : create ct st1 c (repeatCalls func n t1).2 = some (st2, x2) := by
+        rw [hc2, ← f2, ← f3]
+      obtain ⟨o1, o2, g1, g2, g3, g4, g5, g6, _⟩ :=
+        fresh_attrs ct objs next memo hcl c ci hci _ _ st1 st2 x1 x2 hc1' hc2'
+      have ht1 : t1 = (runCalls (List.replicate n func) t).1 := by rw [← e1, repeatCalls_eq]
+      have hsplit : runCalls (List.replicate (n + n) func) t =
+          ((runCalls (List.replicate n func) (runCalls (List.replicate n func) t).1).1,
+           (runCalls (List.replicate n func) t).2 ++ (runCalls (List.replicate n func) (runCalls (List.replicate n func) t).1).2) := by
+        rw [← List.replicate_append_replicate, runCalls_append]
+      refine ⟨ht1, ?_, o1, o2, g1, g2, ?_, ?_, g5, g6⟩
+      · rw [← f1, repeatCalls_eq, ht1, hsplit]
+      · rw [g3, g4, hsplit, repeatCalls_eq, repeatCalls_eq, ht1]
+      · rw [g3, repeatCalls_eq, runCalls_length, List.length_replicate]
+
+/-- Instance of the hypotheses: the closed example heap, the individual class of the example table, a counting function producing
+the atoms 7, 8, 9, … -/
+example : ∃ ci t1 st1 x1 t2 st2 x2, Closed Ex.heap 3 ∧ Ex.ct[2]? = some ci ∧
+    initRepeatCls Ex.ct 2 (fun k => (k + 1, Val.atom (Int.ofNat k))) 2 7 ⟨Ex.heap, 3, []⟩ = some (t1, st1, x1) ∧
+    initRepeatCls Ex.ct 2 (fun k => (k + 1, Val.atom (Int.ofNat k))) 2 t1 st1 = some (t2, st2, x2) := by
+  obtain ⟨st1, x1, h1⟩ := create_succeeds Ex.ct Ex.ct_ok ⟨Ex.heap, 3, []⟩ 2
+    (repeatCalls (fun k => (k + 1, Val.atom (Int.ofNat k))) 2 7).2 (by decide)
+  obtain ⟨st2, x2, h2⟩ := create_succeeds Ex.ct Ex.ct_ok st1 2
+    (repeatCalls (fun k => (k + 1, Val.atom (Int.ofNat k))) 2 9).2 (by decide)
+  refine ⟨_, 9, st1, x1, 11, st2, x2, Ex.heap_closed, rfl, ?_, ?_⟩
+  · simp only [initRepeatCls]; rw [h1]; rfl
+  · simp only [initRepeatCls]; rw [h2]; rfl
+
+example : ((initRepeatCls Ex.ct 2 (fun k => (k + 1, Val.atom (Int.ofNat k))) 2 7 ⟨Ex.heap, 3, []⟩).bind
+    (fun r => (r.2.1.objs r.2.2).map (fun o => (r.1, r.2.2, o.items)))) = some (9, 3, [.atom 7, .atom 8]) := by
+  decide
+
+end InitFns
 
 end C16
